@@ -38,7 +38,9 @@ def concretise(b, tid, rng, engine="c", allow_fq=True):
             break
         if p not in vol:
             vol.append(p)
-    types = ["volume" if p in vol else "" for p in range(n)]
+    # parameters that carry no distribution are plain or scattering-length densities (an SLD adds the magnetic
+    # block between the kernel values and the distribution values of the call vector)
+    types = ["volume" if p in vol else rng.choice(["", "", "sld"]) for p in range(n)]
     # structural options drawn per scenario (data, not oracle)
     haveFq = rng.random() < 0.3 and allow_fq
     hollow = rng.random() < 0.4
@@ -50,7 +52,8 @@ def concretise(b, tid, rng, engine="c", allow_fq=True):
     else:
         valid = (0,)
     d = probe.make_def(shape_name(tuple(types), haveFq, hollow, nmodes, valid), types,
-                       haveFq=haveFq, hollow=hollow, nmodes=nmodes, valid=valid)
+                       haveFq=haveFq, hollow=hollow, nmodes=nmodes, valid=valid,
+                       style=rng.choice(["ccode", "inline"]))
     mesh = []
     nact = sum(1 for x in lens if x > 1)
     for p in range(n):
@@ -83,7 +86,7 @@ def concretise(b, tid, rng, engine="c", allow_fq=True):
 def big_scenario(tid, rng, lens, engine="c", partition="driver", n_extra=0, cutoff=0.0, allow_fq=True):
     """Harness-chosen mesh (sizes around the driver's 100-point chunk)."""
     n = len(lens) + n_extra
-    types = ["volume"] * len(lens) + [""] * n_extra
+    types = ["volume"] * len(lens) + [rng.choice(["", "sld"]) for _ in range(n_extra)]
     valid = rng.choice([(0,), (1, 0, 2.125), (2, 0, len(lens) - 1)]) if len(lens) > 1 else (0,)
     haveFq = rng.random() < 0.3 and allow_fq
     hollow = rng.random() < 0.4
